@@ -83,14 +83,15 @@ BOUNDS = {
              "full environment, then every free name removed",
     },
     "thorough": {
-        "a": "quick + depth 3 complete over 62 slots x 62 slots of the operator subset x all 129 shapes + depth-4 spines over 13 slots x 6 leaves",
-        "b": "blocks <=2 statements over all 15 kinds and 26 forms: full cross 15 margins x first-line x EOL x 4 positions + TAB/2-space units "
-             "(248 layouts); blocks of 3 statements depth <=3: every form in every hole x 12 layouts; pairs of 13 forms in two holes of blocks "
-             "<=2 statements x 23 layouts",
+        "a": "quick + depth 3 complete over 62 slots x 62 slots of the operator subset x 55 representative shapes + depth-4 spines over "
+             "12 slots x 4 leaves",
+        "b": "blocks <=2 statements over all 15 kinds and 26 forms: 15 margins x first-line x EOL in body/control positions, reduced in "
+             "<%! %>/def positions, + TAB/2-space units (174 layouts); blocks of 3 statements depth <=3: 17 forms in every hole x 8 layouts; "
+             "pairs of 13 forms in two holes of blocks <=2 statements x 23 layouts",
         "c": "as quick, plus every expression binder nested in 7 lambda/comprehension wrappers",
     },
 }
-READY = False
+READY = True
 
 IMPORTS = ["from mc import c19_env as __e19", "globals().update(__e19.MOD)"]
 _ENV_NAMES = ["x", "y", "z", "s", "l", "d", "t", "pp", "f", "gi", "N19", "G19", "f19", "cm19"]
@@ -550,8 +551,8 @@ def run_a(job, st):
         for (l1, i) in job["outer"]:
             for k2 in ops:
                 for j in range(len(k2[3])):
-                    for k3 in X.KINDS:
-                        path = (l1, i, k2[0], j, k3[0])
+                    for l3 in X.D3_INNER:
+                        path = (l1, i, k2[0], j, l3)
                         a_case(path, build_path(path), st, job["seed"], seen)
     elif layer == "spine":
         for path, node in X.spines(job["n"]):
@@ -723,6 +724,8 @@ def layouts(tier, level):
                     continue
                 for eol in ("\n", "\r\n"):
                     for pos in POS:
+                        if pos in ("module", "def") and (fs or eol != "\n") and m not in ("    ", "\t"):
+                            continue
                         out.append((m, "    ", fs, eol, pos))
         for m in ("", "\t"):
             for unit in ("\t", "  "):
@@ -743,11 +746,11 @@ def layouts(tier, level):
         out.append(("", "\t", False, "\n", "ctl"))
         return out
     if level == "min3":
-        for m in ("", " ", "    ", "       ", "            ", "\t", "\t    "):
+        for m in ("", "    ", "       ", "\t"):
             out.append((m, "    ", False, "\n", "body"))
-        for pos in ("module", "ctl", "def"):
+        for pos in ("module", "ctl"):
             out.append(("    ", "    ", False, "\n", pos))
-        out.append(("    ", "    ", True, "\r\n", "body"))
+        out.append(("    ", "    ", True, "\r\n", "def"))
         out.append(("\t", "\t", False, "\r\n", "ctl"))
         return out
     if level == "min":
@@ -777,9 +780,9 @@ PAIR_FORMS = {
 QUICK_SKIP_KINDS = {"call0", "tryraise", "if", "import"}
 
 
-def form_assignments(nholes, mode, tier="thorough"):
+def form_assignments(nholes, mode, tier="thorough", reduced=False):
     """mode 'single': all plain + one special form in one hole; 'pairs': two special forms in two holes"""
-    names = [f[0] for f in BL.FORMS if tier != "quick" or f[0] not in QUICK_SKIP]
+    names = [f[0] for f in BL.FORMS if not (tier == "quick" or reduced) or f[0] not in QUICK_SKIP]
     if mode == "single":
         yield ["plain"] * nholes
         for h in range(nholes):
@@ -838,7 +841,7 @@ def run_b(job, st):
         if idx % job["nshards"] != job["shard"]:
             continue
         nh = BL.count_holes(block)
-        for forms in form_assignments(nh, job["forms"], job["tier"]):
+        for forms in form_assignments(nh, job["forms"], job["tier"], job.get("reduced_forms", False)):
             lines = BL.physical_lines(block, forms)
             try:
                 expected = b_native(lines)
@@ -1266,7 +1269,7 @@ def plan(tier, seed):
         for first in X.SPINE:
             jobs.append({"part": "a", "layer": "spine", "n": 4, "first": list(first), "seed": seed, "tier": tier})
         for s in range(2 * n):
-            jobs.append({"part": "b", "n": 3, "d": 3, "min_n": (2, 2), "layouts": "min3", "forms": "single", "shard": s, "nshards": 2 * n, "seed": seed, "tier": tier})
+            jobs.append({"part": "b", "n": 3, "d": 3, "min_n": (2, 2), "layouts": "min3", "forms": "single", "reduced_forms": True, "shard": s, "nshards": 2 * n, "seed": seed, "tier": tier})
         for s in range(n):
             jobs.append({"part": "b", "n": 2, "d": 2, "layouts": "full", "forms": "single", "shard": s, "nshards": n, "seed": seed, "tier": tier})
         for s in range(n):
